@@ -85,7 +85,9 @@ func (tb *TruthyBool) Boolean() bool {
 	if *tb == "" {
 		return true
 	}
-	return *tb == "true"
+	// A value that came from a property is not lower-cased on decoding;
+	// Maven reads "TRUE" as true (Boolean.parseBoolean).
+	return strings.EqualFold(string(*tb), "true")
 }
 
 // FalsyBool represents a string field that holds a boolean value,
@@ -120,7 +122,9 @@ func (fb *FalsyBool) interpolate(dictionary map[string]string) bool {
 }
 
 func (fb *FalsyBool) Boolean() bool {
-	return *fb == "true"
+	// A value that came from a property is not lower-cased on decoding;
+	// Maven reads "TRUE" as true (Boolean.parseBoolean).
+	return strings.EqualFold(string(*fb), "true")
 }
 
 // interpolating resolves all property placeholders in s with their
